@@ -149,6 +149,174 @@ def chirality_contract(rep):
     return fails
 
 
+def _pi_split(o):
+    """point_inside result term -> (guard terms d of guards 'd != 0', conjunction); If(d != 0, If(conj, 1, 0), 0) | If(conj, 1, 0) | conj"""
+    def is_zero(o):
+        return z3.is_rational_value(o) and o.numerator_as_long() == 0 or z3.is_int_value(o) and o.as_long() == 0
+
+    def is_one(o):
+        return z3.is_rational_value(o) and o.numerator_as_long() == o.denominator_as_long() or z3.is_int_value(o) and o.as_long() == 1
+
+    guards = []
+    while o.decl().kind() == z3.Z3_OP_ITE and not z3.is_bool(o):
+        c, t, e = o.children()
+        if not is_zero(e):
+            raise ValueError("else-branch is not 0")
+        if is_one(t):
+            return guards, c
+        if z3.is_distinct(c) and c.num_args() == 2:
+            a, b = c.children()
+        elif z3.is_not(c) and z3.is_eq(c.arg(0)):
+            a, b = c.arg(0).children()
+        else:
+            raise ValueError(f"guard {c.decl()}")
+        guards.append(a - b)
+        o = t
+    if not z3.is_bool(o):
+        raise ValueError("result is not a truth value")
+    return guards, o
+
+
+def _pi_atoms(b):
+    if z3.is_and(b):
+        return [a for c in b.children() for a in _pi_atoms(c)]
+    k = b.decl().kind()
+    if k == z3.Z3_OP_GE:
+        return [(b.arg(0), b.arg(1))]
+    if k == z3.Z3_OP_LE:
+        return [(b.arg(1), b.arg(0))]
+    raise ValueError(f"atom {b.decl()}")
+
+
+def point_inside_contract(rep):
+    """tetrahedron.point_inside against an independent specification, for every row of every batch: a point is reported inside exactly when the
+    tetrahedron has volume (D = det(p1-p0, p2-p0, p3-p0) != 0) and its barycentric coordinates by Cramer's rule, l_k = D_k / D (D_k: D with edge k
+    replaced by p - p0), satisfy 0 <= l_k <= 1 (k = 1..3) and l_1 + l_2 + l_3 <= 1.  The real code (matrix inverse, matmul) is executed on the
+    generic row; its non-degeneracy guard must be D up to sign and each of its comparisons must be one of the seven specified ones — equality of
+    rational functions decided by exact polynomial normal form (engine/ratpoly.py).  A mismatch is searched for a concrete witness, which is
+    replayed on the real function against an exact Fraction oracle; without a replayed witness the obligation is undecided.
+    Returns failure records (with a native witness) for the caller."""
+    from engine import ratpoly
+
+    name = "point_inside"
+    sp = CORES[name]
+    fn = describe(sp.real())
+    rep.function(fn)
+    args = sp.fresh_args()
+    paths = [p for p in sp.run("-", args=args) if "out" in p]
+    report_problems(rep, sp, name + ".contract", fn["function"])
+    nm = "core.point_inside.inside<=>volume!=0-and-barycentric-coordinates-in-the-simplex"
+    V = [[args["vertices"].blocks[0][i, j] for j in range(3)] for i in range(4)]
+    X = [args["points"].blocks[0][j] for j in range(3)]
+    e = [[V[k][j] - V[0][j] for j in range(3)] for k in (1, 2, 3)]
+    d = [X[j] - V[0][j] for j in range(3)]
+
+    def det3(a, b, c):
+        return a[0] * (b[1] * c[2] - b[2] * c[1]) - a[1] * (b[0] * c[2] - b[2] * c[0]) + a[2] * (b[0] * c[1] - b[1] * c[0])
+
+    D = det3(*e)
+    lam = [det3(d, e[1], e[2]) / D, det3(e[0], d, e[2]) / D, det3(e[0], e[1], d) / D]
+    spec_atoms = [(l, z3.RealVal(0)) for l in lam] + [(z3.RealVal(1), l) for l in lam] + [(z3.RealVal(1), lam[0] + lam[1] + lam[2])]
+
+    def zero(o):
+        o = z3.simplify(o)
+        return z3.is_rational_value(o) and o.numerator_as_long() == 0 or z3.is_int_value(o) and o.as_long() == 0
+
+    main = [p for p in paths if not zero(p["out"][0])]
+    rest = [p for p in paths if zero(p["out"][0])]
+    why = None
+    try:
+        if len(main) != 1:
+            raise ValueError(f"{len(main)} paths with a non-constant result")
+        cache = {}
+        g, conj = _pi_split(main[0]["out"][0])
+        A = [ratpoly.from_z3(l, cache) - ratpoly.from_z3(r, cache) for l, r in _pi_atoms(conj)]
+        S = [ratpoly.from_z3(l, cache) - ratpoly.from_z3(r, cache) for l, r in spec_atoms]
+        Dq = ratpoly.from_z3(D, cache)
+        G = [ratpoly.from_z3(x, cache) for x in g]
+        used = set()
+        for q in A:
+            j = next((j for j, q2 in enumerate(S) if j not in used and q.same(q2)), None)
+            if j is None:
+                raise LookupError("a comparison of the real code is not one of the seven specified ones")
+            used.add(j)
+        if len(used) != len(S):
+            raise LookupError(f"only {len(used)} of the {len(S)} specified comparisons are made")
+        if len(paths) > 1 or G:
+            # rows without volume: "outside".  Either a guard D != 0 (up to sign) on the result, or (no guard) the code must not have a constant path
+            if len(G) != 1 or not (G[0].same(Dq) or G[0].same(-Dq)):
+                raise LookupError("the non-degeneracy guard is not 'determinant of the edge vectors != 0'")
+        else:
+            raise LookupError("rows without volume are not answered (no guard on the determinant)")
+        # constant-0 paths (no row of the batch has volume): sound only if their path condition excludes volume for this row
+        for p in rest:
+            r_ = solve.discharge(p["pc"] + p["ax"], D == 0, timeout_ms=20000)
+            if r_["status"] != "discharged":
+                raise LookupError("a path returning the constant 0 does not imply a zero determinant for the row")
+        st = {"status": "discharged", "backend": f"rational-normal-form({len(A)} comparisons + guard matched with Cramer's rule)", "time_s": 0}
+    except (ValueError, LookupError) as ex:
+        why = str(ex)
+        st = {"status": "unknown", "backend": "rational-normal-form", "time_s": 0, "reason": why}
+    fails = []
+    if why is not None:
+        wit = _pi_witness(sp)
+        if wit is not None:
+            st = {"status": "refuted", "backend": "rational-normal-form + replayed concrete witness", "time_s": 0, "reason": why}
+            fails.append(dict(name=nm, why=f"{why}; witness replayed on the real function: vertices={wit[0]}, point={wit[1]}: point_inside says {wit[2]}, exact barycentric oracle says {wit[3]}",
+                              witness=dict(vertices=wit[0], point=wit[1])))
+    rep.obligation(nm, st, fn["function"])
+    return fails
+
+
+def _pi_witness(sp, tries=4000, seed=0):
+    """random search for a row on which the REAL point_inside (native, batch of one and batch of many) disagrees with the exact Fraction oracle by a margin"""
+    import warnings
+    from fractions import Fraction as Fr
+
+    import numpy as np
+
+    real = sp.real()
+    rng = np.random.default_rng(seed)
+
+    def det3(a, b, c):
+        return a[0] * (b[1] * c[2] - b[2] * c[1]) - a[1] * (b[0] * c[2] - b[2] * c[0]) + a[2] * (b[0] * c[1] - b[1] * c[0])
+
+    def oracle(v, x):
+        v = [[Fr(float(t)) for t in q] for q in v]
+        x = [Fr(float(t)) for t in x]
+        e = [[v[k][i] - v[0][i] for i in range(3)] for k in (1, 2, 3)]
+        d = [x[i] - v[0][i] for i in range(3)]
+        D = det3(*e)
+        if D == 0:
+            return False, 1.0
+        lam = [det3(d, e[1], e[2]) / D, det3(e[0], d, e[2]) / D, det3(e[0], e[1], d) / D]
+        lam = [1 - sum(lam)] + lam
+        m = min(min(lam), min(1 - t for t in lam))
+        return m > 0, abs(float(m))
+
+    vs, xs = [], []
+    for k in range(tries):
+        if k % 10 == 0:
+            v = np.array([(0, 0, 0), (1, 0, 0), (0, 1, 0), (1, 1, 0)], dtype=float) * rng.integers(1, 4) if k % 20 == 0 else np.round(rng.normal(size=(1, 3)), 1).repeat(4, axis=0) + np.outer(rng.integers(0, 3, 4), (1.0, 0.5, 0.0))
+        else:
+            v = rng.normal(size=(4, 3))
+        w = rng.dirichlet(np.ones(4))
+        x = w @ v if k % 3 else v.mean(axis=0) + rng.normal(size=3) * (3 if k % 2 else 0.7)
+        vs.append(v), xs.append(x)
+    vs, xs = np.array(vs), np.array(xs)
+    with warnings.catch_warnings():
+        warnings.simplefilter("ignore")
+        try:
+            got = np.asarray(real(xs.copy(), vs.copy(), "auto")).astype(bool)
+        except Exception as ex:  # pylint: disable=broad-except
+            return (vs[0].tolist(), xs[0].tolist(), f"raised {type(ex).__name__}: {ex}", "a truth value")
+    for i in range(len(vs)):
+        exp, margin = oracle(vs[i], xs[i])
+        if margin > 1e-6 and bool(got[i]) != exp:
+            return (vs[i].tolist(), xs[i].tolist(), bool(got[i]), exp)
+    return None
+
+
 def point_inside_symmetry(rep):
     """tetrahedron.point_inside is symmetric under the exchange of vertices 2 and 3 (what check_chirality may do): the Tetrahedron wrapper's proof
     assumes it.  The real code is run on the generic row with the vertices as given and exchanged; both results are conjunctions of the same seven
@@ -169,12 +337,41 @@ def point_inside_symmetry(rep):
     r2 = [p for p in sp.run("-", args=dict(args, vertices=G([blk], 0, V.tag, V.layout))) if "out" in p]
     report_problems(rep, sp, name, fn["function"])
     nm = "core.point_inside.symmetric-under-exchange-of-vertices-2-and-3"
-    if len(r1) != 1 or len(r2) != 1:
-        rep.obligation(nm, {"status": "unknown", "backend": "symex", "time_s": 0, "reason": f"{len(r1)} / {len(r2)} paths"}, fn["function"])
+    def is_zero(o):
+        return z3.is_rational_value(o) and o.numerator_as_long() == 0 or z3.is_int_value(o) and o.as_long() == 0
+
+    def is_one(o):
+        return z3.is_rational_value(o) and o.numerator_as_long() == o.denominator_as_long() or z3.is_int_value(o) and o.as_long() == 1
+
+    # rows without volume are answered "outside" through a batch-global np.any fork: the paths on which no row of the batch has volume return the
+    # constant 0 in both runs (trivially symmetric); the remaining path of each run carries the comparisons, guarded by "determinant != 0"
+    m1 = [p for p in r1 if not is_zero(z3.simplify(p["out"][0]))]
+    m2 = [p for p in r2 if not is_zero(z3.simplify(p["out"][0]))]
+    if len(m1) != 1 or len(m2) != 1 or len(r1) != len(r2):
+        rep.obligation(nm, {"status": "unknown", "backend": "symex", "time_s": 0, "reason": f"{len(r1)} / {len(r2)} paths, {len(m1)} / {len(m2)} with a non-constant result"}, fn["function"])
         return []
 
-    def strip(o):
-        return o.arg(0) if o.decl().kind() == z3.Z3_OP_ITE and not z3.is_bool(o) else o
+    def split(o):
+        """result term -> (list of guard terms d of the form 'd != 0', conjunction): If(d != 0, If(conj, 1, 0), 0) or If(conj, 1, 0) or conj"""
+        guards = []
+        while o.decl().kind() == z3.Z3_OP_ITE and not z3.is_bool(o):
+            c, t, e = o.children()
+            if not is_zero(e):
+                raise ValueError("else-branch is not 0")
+            if is_one(t):
+                return guards, c
+            g = c
+            if z3.is_distinct(g) and g.num_args() == 2:
+                a, b = g.children()
+            elif z3.is_not(g) and z3.is_eq(g.arg(0)):
+                a, b = g.arg(0).children()
+            else:
+                raise ValueError(f"guard {g.decl()}")
+            guards.append(a - b)
+            o = t
+        if not z3.is_bool(o):
+            raise ValueError("result is not a truth value")
+        return guards, o
 
     def atoms(b):
         if z3.is_and(b):
@@ -191,14 +388,20 @@ def point_inside_symmetry(rep):
 
     try:
         cache = {}
-        A1 = [norm(a) for a in atoms(strip(r1[0]["out"][0]))]
-        A2 = [norm(a) for a in atoms(strip(r2[0]["out"][0]))]
+        g1, c1 = split(m1[0]["out"][0])
+        g2, c2 = split(m2[0]["out"][0])
+        A1 = [norm(a) for a in atoms(c1)]
+        A2 = [norm(a) for a in atoms(c2)]
         Q1 = [ratpoly.from_z3(l, cache) - ratpoly.from_z3(r, cache) for l, r in A1]
         Q2 = [ratpoly.from_z3(l, cache) - ratpoly.from_z3(r, cache) for l, r in A2]
+        D1 = [ratpoly.from_z3(g, cache) for g in g1]
+        D2 = [ratpoly.from_z3(g, cache) for g in g2]
     except ValueError as e:
-        rep.obligation(nm, {"status": "unknown", "backend": "rational-normal-form", "time_s": 0, "reason": f"result is not a conjunction of >= / <= comparisons of rational terms: {e}"}, fn["function"])
+        rep.obligation(nm, {"status": "unknown", "backend": "rational-normal-form", "time_s": 0, "reason": f"result is not a (guarded) conjunction of >= / <= comparisons of rational terms: {e}"}, fn["function"])
         return []
-    used, ok = set(), len(Q1) == len(Q2)
+    # "d != 0" guards: the same set up to sign
+    gok = len(D1) == len(D2) and all(any(d.same(e) or d.same(-e) for e in D2) for d in D1) and all(any(d.same(e) or d.same(-e) for e in D1) for d in D2)
+    used, ok = set(), gok and len(Q1) == len(Q2)
     for q in Q1:
         j = next((j for j, q2 in enumerate(Q2) if j not in used and q.same(q2)), None)
         if j is None:
@@ -206,7 +409,7 @@ def point_inside_symmetry(rep):
             break
         used.add(j)
     # as for check_chirality: a callee that misses the contract its caller's proof assumes makes the caller's obligations undecided, not violated
-    st = {"status": "discharged", "backend": f"rational-normal-form({len(Q1)} comparisons matched)", "time_s": 0} if ok else \
+    st = {"status": "discharged", "backend": f"rational-normal-form({len(Q1)} comparisons and {len(D1)} non-degeneracy guards matched)", "time_s": 0} if ok else \
         {"status": "unknown", "backend": "rational-normal-form", "time_s": 0, "reason": "the comparisons of the two runs cannot be matched: the symmetry assumed by the Tetrahedron wrapper's proof is not established"}
     rep.obligation(nm, st, fn["function"])
     return []
